@@ -30,8 +30,8 @@ QCH = {"b": "'", "s": "'", "d": '"'}          # YpPrint.qchar (QBare is mapped t
 ALPHA_ = "abcdefghijklmnopqrstuvwxyzABCDEFGHIJKLMNOPQRSTUVWXYZ_"
 DIGITS = "0123456789"
 # char::is_whitespace (YpModel.is_whitespace)
-WS = ["\t", "\n", "\x0b", "\x0c", "\r", " ", "\x85", "\xa0", " "] + [chr(c) for c in range(0x2000, 0x200b)] + \
-     [" ", " ", " ", " ", "　"]
+WS = ["\t", "\n", "\x0b", "\x0c", "\r", " ", "\x85", "\xa0", "\u1680"] + [chr(c) for c in range(0x2000, 0x200b)] + \
+     ["\u2028", "\u2029", "\u202f", "\u205f", "\u3000"]
 WSSET = set(WS)
 U64MAX = 2 ** 64 - 1
 
@@ -51,28 +51,35 @@ def count_nl(s):
     return sum(1 for c in s if c in "\n\r")
 
 
-def layout_text(s):
-    """blanks, `//...<nl>` and `/*...*/` items (YpSpec.layout_item / layout_text)"""
-    i, n = 0, len(s)
+def layout_items(s):
+    """the items of a layout text — blanks, `//...<nl>`, `/*...*/` (YpSpec.layout_item) — or None"""
+    i, n, items = 0, len(s), []
     while i < n:
         c = s[i]
         if c in " \t\n\r":
+            items.append(("blank", c))
             i += 1
         elif s.startswith("//", i):
             j = i + 2
             while j < n and s[j] not in "\n\r":
                 j += 1
             if j >= n:
-                return False                      # a line comment ends with its newline character
+                return None                       # a line comment ends with its newline character
+            items.append(("line", s[i:j + 1]))
             i = j + 1
         elif s.startswith("/*", i):
             j = s.find("*/", i + 2)
             if j < 0:
-                return False
+                return None
+            items.append(("block", s[i:j + 2]))
             i = j + 2
         else:
-            return False
-    return True
+            return None
+    return items
+
+
+def layout_text(s):
+    return layout_items(s) is not None
 
 
 def line_gap(s):
@@ -356,7 +363,7 @@ def encode(fa, ag, lay):
             w += ["-"] if pr["prec"] is None else ["%", xs(pr["prec"])]
             w += ["-"] if pr["action"] is None else ["{", xs(pr["action"])]
     ents = []
-    pth = lambda p: ".".join(str(i) for i in p)
+    pth = lambda p: ".".join(str(i) for i in p) if p else "-"
     for p, v in sorted(lay.g.items()):
         ents += ["g", pth(p), xs(v)]
     for p, v in sorted(lay.q.items()):
@@ -373,17 +380,45 @@ def encode(fa, ag, lay):
 #  generator
 # =====================================================================================
 IDENT_POOL = ["prec", "empty", "token", "start", "left", "epp", "_", "__", "A", "x1", "_9", "Z_z", "e", "expect"]
-NAME_PIECES = ["+", "-", "*", "/", "(", ")", "=", "<", " ", "  ", "é", "→", "{", "}", "%", "%%", "//", "/*", "*/", ";", "|",
-               ":", "\\", "\U0001F600", "1", ".", "#", "\t", "\r", "a", "B", "_", "%token", "%prec", "%empty", "\xa0",
-               " ", "\x00", "\x7f", "日本", "->", "if"]
+NAME_PIECES = ["+", "-", "*", "/", "(", ")", "=", "<", " ", "  ", "\u00e9", "\u2192", "{", "}", "%", "%%", "//", "/*", "*/", ";",
+               "|", ":", "\\", "\U0001F600", "1", ".", "#", "\t", "\r", "a", "B", "_", "%token", "%prec", "%empty", "\xa0",
+               "\u2028", "\x00", "\x7f", "\u65e5\u672c", "->", "if"]
 COMMENT_PIECES = ["x", "y z", " ", "*", "/", "**", "//", "/*", "* /", "'", '"', "{", "}", "%%", "%token q", ";", "|", ":",
-                  "é", "→", "\U0001F600", "日本", "\t", "\\", "a/b", "a*b", "*x/", "\n", "\r", "\r\n", "\n/", "\r/", "\n//",
-                  "\n/*", "\n *", "%prec", "\xa0", " "]
-ACTION_PIECES = ["$1", "Ok(())", " ", "  ", "\n", "\r\n", "\r", "\t", "é", "→", "\U0001F600", "'", '"', "/", "/*", "*/", "//",
-                 "%%", "|", ";", ":", "%prec", "%empty", "\\", "\xa0", " ", "　", "x", "a b", "$lexer.span()", "'{'"[1:1]]
-EPP_PIECES = ["x", "an integer", "é", "it's", 'say "hi"', "→", "'", '"', "''", '"\'', "%", "/* c */", "// c", "\U0001F600", " ",
-              "\t", "{", "%%", "\xa0"]
+                  "\u00e9", "\u2192", "\U0001F600", "\u65e5\u672c", "\t", "\\", "a/b", "a*b", "*x/", "\n", "\r", "\r\n", "\n/",
+                  "\r/", "\n//", "\n/*", "\n *", "%prec", "\xa0", "\u2028", "%grmtools {yacckind: Grmtools}", "\x0b", "\x85"]
+ACTION_PIECES = ["$1", "Ok(())", " ", "  ", "\n", "\r\n", "\r", "\t", "\u00e9", "\u2192", "\U0001F600", "'", '"', "/", "/*", "*/",
+                 "//", "%%", "|", ";", ":", "%prec", "%empty", "\\", "\xa0", "\u2003", "\u3000", "x", "a b", "$lexer.span()"]
+EPP_PIECES = ["x", "an integer", "\u00e9", "it's", 'say "hi"', "\u2192", "'", '"', "''", '"\'', "%", "/* c */", "// c",
+              "\U0001F600", " ", "\t", "{", "%%", "\xa0"]
 NUMS = [0, 0, 1, 7, 42, 2 ** 32, 2 ** 63, U64MAX, U64MAX - 1, 12345678901234567890]
+
+
+BOUNDARY_CHARS = ["\x00", "\x7f", "\x80", "\u07ff", "\u0800", "\ud7ff", "\ue000", "\uffff", "\U00010000", "\U0010ffff"]
+
+
+def rand_char(rng):
+    """any Unicode scalar value, biased towards the interesting ranges"""
+    k = rng.random()
+    if k < 0.06:                                  # the ends of the UTF-8 length classes
+        return rng.choice(BOUNDARY_CHARS)
+    if k < 0.4:
+        return chr(rng.randint(0x20, 0x7e))
+    if k < 0.5:
+        return chr(rng.choice(list(range(0x20)) + [0x7f]))
+    if k < 0.65:
+        return chr(rng.randint(0x80, 0xff))
+    if k < 0.85:
+        while True:
+            c = rng.randint(0x100, 0xffff)
+            if not 0xd800 <= c <= 0xdfff:
+                return chr(c)
+    if k < 0.95:
+        return chr(rng.randint(0x10000, 0x10ffff))
+    return rng.choice(WS)
+
+
+def piece(rng, pool, p_random=0.15):
+    return rand_char(rng) if rng.random() < p_random else rng.choice(pool)
 
 
 def gen_ident(rng, used):
@@ -400,10 +435,12 @@ def gen_ident(rng, used):
 def gen_special(rng, used):
     """a token name that can only be written between quotes (contains at most one kind of quote)"""
     for _ in range(100):
-        parts = [rng.choice(NAME_PIECES) for _ in range(rng.choice([1, 1, 1, 2, 2, 3]))]
+        parts = [piece(rng, NAME_PIECES) for _ in range(rng.choice([1, 1, 1, 2, 2, 3]))]
         if rng.random() < 0.3:
             parts.insert(rng.randint(0, len(parts)), rng.choice(["'", '"']))
-        n = "".join(parts)
+        n = "".join(parts).replace("\n", "")
+        if "'" in n and '"' in n:                   # such a name has no spelling
+            n = n.replace(rng.choice(["'", '"']), "")
         if n and n not in used and not is_ident(n):
             used.add(n)
             return n
@@ -411,7 +448,7 @@ def gen_special(rng, used):
 
 
 def comment_body(rng, newline_ok):
-    t = "".join(rng.choice(COMMENT_PIECES) for _ in range(rng.choice([0, 1, 1, 2, 3, 4])))
+    t = "".join(piece(rng, COMMENT_PIECES) for _ in range(rng.choice([0, 1, 1, 2, 3, 4])))
     if not newline_ok:
         t = t.replace("\n", " ").replace("\r", "")
     while "*/" in t:
@@ -454,19 +491,21 @@ def gen_pad(rng):
 def gen_action(rng):
     def seq(depth):
         out = []
-        for _ in range(rng.choice([0, 1, 1, 2, 3])):
+        for _ in range(rng.choice([0, 1, 1, 2, 3] if depth else [1, 1, 2, 3, 4, 6])):
             if depth < 3 and rng.random() < 0.2:
                 out.append("{" + seq(depth + 1) + "}")
             else:
-                out.append(rng.choice(ACTION_PIECES))
+                c = piece(rng, ACTION_PIECES)
+                out.append("x" if c in "{}" else c)
         return "".join(out)
-    if rng.random() < 0.12:
+    if rng.random() < 0.08:
         return ""
     return seq(0).strip("".join(WS))
 
 
 def gen_epp_value(rng):
-    return "".join(rng.choice(EPP_PIECES) for _ in range(rng.choice([0, 1, 1, 2, 3])))
+    v = "".join(piece(rng, EPP_PIECES) for _ in range(rng.choice([0, 1, 1, 2, 3])))
+    return v.replace("\\", "").replace("\n", "").replace("\r", "")
 
 
 def styles_for(n):
@@ -482,8 +521,11 @@ def styles_for(n):
 
 def random_agram(rng):
     used = set()
+    full = rng.random() < 0.2                      # every declaration kind present
+    P = lambda p: full or rng.random() < p
     # ---- rule names
-    rnames = [gen_ident(rng, used) for _ in range(rng.choice([1, 1, 2, 2, 3, 4, 5]))]
+    big = rng.random() < 0.03                     # now and then a large grammar
+    rnames = [gen_ident(rng, used) for _ in range(rng.randint(6, 12) if big else rng.choice([1, 1, 2, 2, 3, 4, 5]))]
     dotted = []
     if rng.random() < 0.3:
         for _ in range(rng.randint(1, 2)):
@@ -492,7 +534,7 @@ def random_agram(rng):
                 used.add(n)
                 dotted.append(n)
     # ---- token names
-    dtoks = [gen_ident(rng, used) for _ in range(rng.choice([0, 1, 2, 2, 3, 4]))]       # identifiers %token declares
+    dtoks = [gen_ident(rng, used) for _ in range(rng.choice([1 if full else 0, 1, 2, 2, 3, 4]))]       # identifiers %token declares
     utoks = [gen_ident(rng, used) for _ in range(rng.choice([0, 0, 1, 2]))]             # identifiers no %token declares
     specials = [gen_special(rng, used) for _ in range(rng.choice([0, 1, 2, 2, 3, 4]))]
     declared = list(dtoks)
@@ -521,7 +563,7 @@ def random_agram(rng):
     pool = all_toks[:] + [gen_ident(rng, used) for _ in range(rng.randint(0, 2))] + [gen_special(rng, used) for _ in range(rng.randint(0, 1))]
     rng.shuffle(pool)
     prec_toks = []
-    for _ in range(rng.choice([0, 1, 1, 2, 3])):
+    for _ in range(rng.choice([1 if full else 0, 1, 1, 2, 3])):
         if not pool:
             break
         k = rng.randint(1, min(3, len(pool)))
@@ -530,7 +572,7 @@ def random_agram(rng):
         decls.append(("P", rng.choice("LRN"), ts))
     # ---- %avoid_insert lines
     avoid = []
-    if rng.random() < 0.45:
+    if P(0.45):
         pool = all_toks[:] + [gen_ident(rng, used), gen_special(rng, used)]
         rng.shuffle(pool)
         for _ in range(rng.choice([1, 1, 2])):
@@ -551,7 +593,7 @@ def random_agram(rng):
         prods = []
         for _ in range(rng.choice([1, 1, 2, 2, 3, 4])):
             syms = []
-            for _ in range(rng.choice([0, 0, 1, 1, 2, 2, 3, 4, 6])):
+            for _ in range(rng.randint(0, 12) if big else rng.choice([0, 0, 1, 1, 2, 2, 3, 4, 6])):
                 if refable and (not all_toks or rng.random() < 0.4):
                     syms.append(("r", rng.choice(refable)))
                 elif all_toks:
@@ -565,15 +607,15 @@ def random_agram(rng):
             prods.append({"syms": syms, "prec": prec, "action": action})
         rules.append((rn, prods))
     # ---- the other declarations
-    if rng.random() < 0.5:
+    if P(0.5):
         decls.append(("S", rng.choice(rnames + dotted)))
     known = list(dict.fromkeys(declared + avoid + sorted(rtn)))
-    if known and rng.random() < 0.55:
+    if known and P(0.55):
         for t in rng.sample(known, rng.randint(1, min(3, len(known)))):
             decls.append(("E", t, gen_epp_value(rng)))
-    if rng.random() < 0.4:
+    if P(0.4):
         decls.append(("X", rng.choice(NUMS) if rng.random() < 0.7 else rng.getrandbits(rng.choice([8, 33, 64]))))
-    if rng.random() < 0.3:
+    if P(0.3):
         decls.append(("Y", rng.choice(NUMS) if rng.random() < 0.7 else rng.getrandbits(rng.choice([8, 33, 64]))))
     rng.shuffle(decls)
     return {"decls": decls, "rules": rules}
@@ -665,6 +707,89 @@ def random_layout(rng, ag):
     return lay
 
 
+# ---- corpus: one grammar with every construct under uniform layouts ----------------------------
+CORPUS_AG = {
+    "decls": [("T", ["a", "b c", "a"]), ("S", "A"), ("P", "L", ["+", "m"]), ("X", 0), ("A", ["a", "z"]), ("P", "N", ["u"]),
+              ("E", "a", "it's \"a\""), ("Y", U64MAX), ("T", ["d"]), ("A", ["w"]), ("E", "+", "")],
+    "rules": [("A", [{"syms": [("r", "A"), ("t", "+"), ("r", "B"), ("t", "a"), ("t", "d")], "prec": "m", "action": "$1 { {} }"},
+                     {"syms": [], "prec": None, "action": None},
+                     {"syms": [], "prec": "u", "action": ""}]),
+              ("B", [{"syms": [("t", "a"), ("t", "d"), ("t", "b c")], "prec": None, "action": None}]),
+              (".c.", [{"syms": [], "prec": None, "action": "\u00e9"}]),
+              ("A", [{"syms": [("r", "B"), ("r", "B")], "prec": None, "action": None}])]}
+CORPUS_GAPS = ["", " ", "\t", "\n", "\r\n", "\r", "/**/", "/*/*/", "/***/", "//\n", "//x\r", "/*\n/*/", "/* %% ' \" { */", "/*\u00e9\U0001F600*/",
+               " /* a */ // b\r\n\t"]
+
+
+def uniform_layout(ag, gap, prefer, pad, flag):
+    """every gap = `gap` (made newline-free / newline-bearing / non-empty where the conditions ask for it),
+    every spelling the first possible one in the order `prefer`"""
+    lay = Lay()
+    declared = set(t for x in ag["decls"] if x[0] == "T" for t in x[1])
+    g_any = gap
+    g_line = gap if count_nl(gap) == 0 else gap.replace("//", "/*").replace("\r\n", "*/").replace("\n", "*/").replace("\r", "*/") \
+        if gap.startswith("//") else ""
+    if not line_gap(g_line):
+        g_line = " "
+    g_eol = gap if count_nl(gap) >= 1 else gap + "\r"
+    ne = lambda g: g if g else " "
+    st = lambda n, bare_ok=True: [q for q in prefer if q in styles_for(n) and (q != "b" or bare_ok)][0]
+    lay.g[(0,)] = g_any
+    lay.g[(2,)] = g_any
+    for d, x in enumerate(ag["decls"]):
+        k = x[0]
+        lay.g[(1, d, 0)] = g_line
+        if k == "S":
+            lay.g[(1, d, 1)] = g_any
+        elif k in ("T", "P", "A"):
+            ts = x[-1]
+            qs = [st(t) for t in ts]
+            for i, t in enumerate(ts):
+                lay.q[(1, d, i)] = qs[i]
+                g = (g_any if k == "T" else g_line) if i + 1 < len(ts) else (g_any if k == "T" else g_eol)
+                lay.g[(1, d, i + 1)] = ne(g) if i + 1 < len(ts) and qs[i] == "b" and qs[i + 1] == "b" else g
+        elif k == "E":
+            lay.q[(1, d, 0)] = st(x[1])
+            lay.g[(1, d, 1)] = g_line
+            q = "d" if prefer[0] == "d" else "s"
+            lay.q[(1, d, 1)] = q
+            lay.t[(1, d, 0)] = "".join("\\" + c if c == QCH[q] or (c in "'\"" and flag) else c for c in x[2])
+            lay.g[(1, d, 2)] = g_any
+        else:
+            lay.t[(1, d, 0)] = ("00" if flag else "") + str(x[1])
+            lay.g[(1, d, 1)] = g_any
+    for r, (rn, prods) in enumerate(ag["rules"]):
+        lay.g[(3, r, 0)] = g_any
+        lay.g[(3, r, 1)] = g_any
+        for p, pr in enumerate(prods):
+            sq = ["b" if kind == "r" else st(n, n in declared) for kind, n in pr["syms"]]
+            for k, q in enumerate(sq):
+                lay.q[(4, r, p, 0, k)] = q
+                lay.g[(4, r, p, 0, k)] = ne(g_any) if q == "b" and k + 1 < len(sq) and sq[k + 1] == "b" else g_any
+            if pr["prec"] is not None:
+                lay.g[(4, r, p, 1)] = g_any
+                lay.q[(4, r, p, 1)] = st(pr["prec"])
+                lay.g[(4, r, p, 2)] = g_any
+            if pr["action"] is not None:
+                lay.t[(4, r, p, 6)] = pad
+                lay.t[(4, r, p, 7)] = pad[::-1]
+                lay.g[(4, r, p, 3)] = g_any
+            lay.f[(4, r, p)] = flag
+            lay.g[(4, r, p, 4)] = g_any
+            lay.g[(4, r, p, 5)] = g_any
+    return lay
+
+
+def corpus():
+    out = []
+    for i, g in enumerate(CORPUS_GAPS):
+        for prefer in ("bsd", "dsb", "sdb"):
+            out.append((CORPUS_AG, uniform_layout(CORPUS_AG, g, prefer, ["", " ", "\xa0\n", "\u3000"][i % 4], i % 2 == 0)))
+    minimal = {"decls": [], "rules": [("A", [{"syms": [], "prec": None, "action": None}])]}
+    out.append((minimal, Lay()))
+    return out
+
+
 # =====================================================================================
 #  coverage accounting
 # =====================================================================================
@@ -703,12 +828,13 @@ def account(ctx, ag, lay, text):
                 c("epp_own_quote_escaped")
             c("epp_key_style_" + lay.Q(1, d, 0))
         if x[0] in "PA":
-            last = lay.G(1, d, len(x[-1]))
-            if "\n" not in last.replace("/*", "\0").split("\0")[0] and "/*" in last and count_nl(last.split("*/")[-1]) == 0 \
-                    and "//" not in last:
+            items = layout_items(lay.G(1, d, len(x[-1])))
+            if all(count_nl(t) == 0 for k, t in items if k != "block"):
                 c("list_line_ended_by_newline_inside_block_comment")
-            if "\n" not in last:
+            if "\n" not in lay.G(1, d, len(x[-1])):
                 c("list_line_ended_by_CR_only")
+            if len(x[-1]) >= 2 and any(lay.G(1, d, i) == "" for i in range(1, len(x[-1]))):
+                c("list_tokens_glued")
     if len(seen_kinds) == 7:
         c("all_seven_declaration_kinds")
     if toklines >= 2:
@@ -819,17 +945,53 @@ def describe(ag, lay):
 # =====================================================================================
 #  the check
 # =====================================================================================
+BATCH = 8000
+
+
 def run_part(ctx, tag="C10round"):
     exe = core.build_harness("c10yp")
     mirror = core.build_model("c10yp")
     rexe = core.build_model("c10round")
     rng = ctx.rng
     fa = ACTION_SPAN_FIXED
-    n_pairs = ctx.n(6000, 60000)
+    n_pairs = ctx.n(10000, 120000)
+    bad = {"print": 0, "impl": 0, "thm": 0}
+    done = 0
+    while done < n_pairs:
+        k = min(BATCH, n_pairs - done)
+        run_batch(ctx, rng, k, fa, exe, mirror, rexe, bad, corpus() if done == 0 else ())
+        done += k
+    ctx.oblige(bad["print"] == 0, "Coq printer = Python printer")
+    ctx.oblige(bad["impl"] == 0, "implementation builds ast_of on print")
+    ctx.oblige(bad["thm"] == 0, "mirror builds ast_of on print (the theorem's statement, evaluated)")
+    ctx.coverage["rule"] = (
+        "a corpus (one grammar with every construct under %d uniform layouts x 3 spelling preferences, the minimal grammar), then %d random (abstract grammar, layout) pairs inside wf_agram/wf_layout (asserted by an independent Python implementation of "
+        "the conditions): all 7 declaration kinds in random order, several %%token/precedence/%%avoid_insert lines, repeated "
+        "%%token names, rule blocks repeated under one name, dotted rule names, rule names that are also token names, empty "
+        "productions with/without %%empty, %%prec (bare, undeclared), actions (empty, nested braces, newlines, multi-byte, "
+        "Unicode-whitespace pads); every gap independently empty / blanks / tabs / LF, CRLF, CR / line comments / block comments "
+        "(bodies with '/', '*', newline+'/', '/*', quotes, braces, '%%%%', multi-byte, random scalar values), newline-free gaps "
+        "inside directives, the newline that ends a token-list line possibly inside a comment; spelling chosen per occurrence "
+        "(bare / '..' / \"..\"); numerals with leading zeros up to u64::MAX; %%epp bodies with optional escapes; stray layout "
+        "entries on unused paths. text + expected transcript from the extracted print/ast_of/warnings_of (fa = %s); compared as "
+        "strings with the implementation's transcript and the extracted mirror's. non-trivial = >= 2 declarations and >= 2 "
+        "productions; distinct by case line" % (len(CORPUS_GAPS), n_pairs, "true" if fa else "false"))
+    ctx.coverage["pairs"] = n_pairs
+    ctx.assumptions += [
+        "code points of names, actions, values and layout are Unicode scalar values (str = list N admits others; they cannot reach a Rust &str)",
+        "expected AST computed with fa = %s: /repo %s the action-span repair (ACTION_SPAN_FIXED in checks/c10_round.py)"
+        % ("true" if fa else "false", "has" if fa else "does not have"),
+    ]
+
+
+def run_batch(ctx, rng, n, fa, exe, mirror, rexe, bad, first=()):
     pairs = []
-    for _ in range(n_pairs):
-        ag = random_agram(rng)
-        lay = random_layout(rng, ag)
+    for i in range(n):
+        if i < len(first):
+            ag, lay = first[i]
+        else:
+            ag = random_agram(rng)
+            lay = random_layout(rng, ag)
         # (d) the generator stays inside the theorem's hypotheses — a failure here is a bug of this check
         why = wf_agram(ag) + wf_layout(lay, ag)
         assert not why, "generator produced a pair outside wf_agram/wf_layout: %s\n%r" % (why, describe(ag, lay))
@@ -846,7 +1008,21 @@ def run_part(ctx, tag="C10round"):
     plines = ["O " + t.encode("utf-8").hex() for t in texts]
     impl = core.run_lines([exe], plines)
     model = core.run_lines([mirror], [l + MODEL_FLAGS for l in plines])
-    n_print = n_impl = n_thm = 0
+    # the statement for the other action-span variant (the theorem quantifies over fa): pairs with an action
+    oth = [i for i, (ag, _) in enumerate(pairs) if any(pr["action"] is not None for _, ps in ag["rules"] for pr in ps)]
+    oflags = " fc" + ("" if fa else " fa")
+    ocoq = core.run_lines([rexe], [encode(not fa, *pairs[i]) for i in oth])
+    omodel = core.run_lines([mirror], [plines[i] + oflags for i in oth])
+    for i, oc, om in zip(oth, ocoq, omodel):
+        ctx.count("statement_evaluated_for_other_fa")
+        if " # " not in oc or oc.split(" # ", 1)[0] != coq[i].split(" # ", 1)[0] or om != oc.split(" # ", 1)[1]:
+            bad["thm"] += 1
+            ctx.violation({"what": "ROUND-TRIP STATEMENT FALSE FOR THIS PAIR with fa = %s: the extracted mirror on (print lay ag) does not "
+                                   "return (ast_of fa lay ag) although wf_agram/wf_layout hold" % ("false" if fa else "true"),
+                           "pair": describe(*pairs[i]), "text": texts[i], "mirror": om[:3000], "expected": oc[:3000],
+                           "differences_mirror_vs_expected": diff_sections(om, oc.split(" # ", 1)[-1]),
+                           "replay_cmd": "echo '%s' | .work/ocaml/c10round/gvm_c10round ; echo '%s' | .work/ocaml/c10yp/gvm_c10yp"
+                                         % (encode(not fa, *pairs[i]), plines[i] + oflags)}, no_input=True)
     for (ag, lay), case, text, exp, pline, a, m in zip(pairs, cases, texts, expected, plines, impl, model):
         nprods = sum(len(ps) for _, ps in ag["rules"])
         ctx.case(case, len(ag["decls"]) >= 2 and nprods >= 2, {"text": text[:400]})
@@ -856,13 +1032,13 @@ def run_part(ctx, tag="C10round"):
         # (b) the Coq printer is the printer described by the path scheme
         ptext = py_print(ag, lay)
         if ptext != text:
-            n_print += 1
+            bad["print"] += 1
             ctx.violation({"what": "the extracted Coq printer (C10/YpPrint.v print) and the independent Python printer disagree: "
                                    "the round-trip check no longer speaks about the printer of the theorem",
                            "pair": describe(ag, lay), "coq_text": text, "python_text": ptext, "replay_cmd": replay}, no_input=True)
         # (d) the statement of the theorem, evaluated: mirror of the parser on the printed text
         if m != exp:
-            n_thm += 1
+            bad["thm"] += 1
             ctx.violation({"what": "ROUND-TRIP STATEMENT FALSE FOR THIS PAIR: run_case true %s KOriginal (print lay ag) (the extracted mirror) "
                                    "is not Done (TResult (ast_of lay ag) [] (warnings_of lay ag)) although wf_agram/wf_layout hold"
                                    % ("true" if fa else "false"),
@@ -870,35 +1046,16 @@ def run_part(ctx, tag="C10round"):
                            "differences_mirror_vs_expected": diff_sections(m, exp), "replay_cmd": replay}, no_input=True)
         # (c) the round trip on the implementation
         head = a.split(" ", 1)[0]
-        bad = " # BADSPAN" in a and (ACTION_SPAN_FIXED or not badspans_are_action_spans(text, a))
-        if head in ("PANIC", "HANG", "CRASH") or strip_bad(a) != exp or bad:
-            n_impl += 1
+        badspan = " # BADSPAN" in a and (ACTION_SPAN_FIXED or not badspans_are_action_spans(text, a))
+        if " # BADSPAN" in a:
+            ctx.count("impl_action_span_off_char_boundary (fa = false)")
+        if head in ("PANIC", "HANG", "CRASH") or strip_bad(a) != exp or badspan:
+            bad["impl"] += 1
             ctx.violation({"what": "print-then-parse round trip fails on the implementation: ASTWithValidityInfo::new on the text printed "
                                    "for a well-formed (grammar, layout) pair does not build the AST the text denotes"
-                                   + (" (a span is off a character boundary / out of range)" if bad and strip_bad(a) == exp else ""),
+                                   + (" (a span is off a character boundary / out of range)" if badspan and strip_bad(a) == exp else ""),
                            "pair": describe(ag, lay), "text": text, "impl": a[:3000], "expected": exp[:3000],
                            "differences_impl_vs_expected": diff_sections(strip_bad(a), exp),
                            "mirror_agrees_with": "expected" if m == exp else ("implementation" if m == strip_bad(a) else "neither"),
                            "replay_cmd": replay})
         ctx.count("outcome_" + (head if head in ("OK", "ERRS", "PANIC", "HANG", "CRASH") else "other"))
-    ctx.oblige(n_print == 0, "Coq printer = Python printer")
-    ctx.oblige(n_impl == 0, "implementation builds ast_of on print")
-    ctx.oblige(n_thm == 0, "mirror builds ast_of on print (the theorem's statement, evaluated)")
-    ctx.coverage["rule"] = (
-        "%d random (abstract grammar, layout) pairs inside wf_agram/wf_layout (asserted by an independent Python implementation of "
-        "the conditions): all 7 declaration kinds in random order, several %%token/precedence/%%avoid_insert lines, repeated "
-        "%%token names, rule blocks repeated under one name, dotted rule names, rule names that are also token names, empty "
-        "productions with/without %%empty, %%prec (bare, undeclared), actions (empty, nested braces, newlines, multi-byte, "
-        "Unicode-whitespace pads); every gap independently empty / blanks / tabs / LF, CRLF, CR / line comments / block comments "
-        "(bodies with '/', '*', newline+'/', '/*', quotes, braces, '%%%%', multi-byte), newline-free gaps inside directives, the "
-        "newline that ends a token-list line possibly inside a comment; spelling chosen per occurrence (bare / '..' / \"..\"); "
-        "numerals with leading zeros up to u64::MAX; %%epp bodies with optional escapes; stray layout entries on unused paths. "
-        "text + expected transcript from the extracted print/ast_of/warnings_of (fa = %s); compared as strings with the "
-        "implementation's transcript and the extracted mirror's. non-trivial = >= 2 declarations and >= 2 productions; "
-        "distinct by case line" % (n_pairs, "true" if fa else "false"))
-    ctx.coverage["pairs"] = n_pairs
-    ctx.assumptions += [
-        "code points of names, actions, values and layout are Unicode scalar values (str = list N admits others; they cannot reach a Rust &str)",
-        "expected AST computed with fa = %s: /repo %s the action-span repair (ACTION_SPAN_FIXED in checks/c10_round.py)"
-        % ("true" if fa else "false", "has" if fa else "does not have"),
-    ]
